@@ -238,3 +238,29 @@ def r5c(cx, rec):
         bad = [c for c in conds if c != flag]
         rec.need(not bad, 'raw-content-dependent/' + fn, f, None,
                  '%s decides what to emit by %s: the re-serialised bytes then differ from the input span for some contents (e.g. an empty list)' % (fn, bad))
+
+
+@TABLE.rule('5d', 'K11', 'the finder\'s entry point scans the top level without emitting anything itself (extract flag false): only the value '
+            'of the matched key is returned', floor=1)
+def r5d(cx, rec):
+    F = cx.F
+    n = 0
+    for f in F.user_fns():
+        if not f.path.startswith('bcodec::deep_finder::') or f.kind == 'Closure':
+            continue
+        bools = C.params_of(f, r'^bool$')
+        if len(bools) < 2 or not C.params_of(f, r'Option<&\[u8\]>'):
+            continue
+        names = [n2 for n2, l2, t2 in C.params_of(f)]
+        for g, gb in C.callers(F, f.path):
+            if C.params_of(g, r'Enumerate<'):
+                continue        # nested call from another scanner
+            args = g.expr_call(gb)[2]
+            n += 1
+            flags = [(nm, args[names.index(nm)]) for nm, l2, t2 in bools]
+            vals = [const_of(a) for nm, a in flags]
+            rec.site(g, gb, 'top-level scan flags: %s' % [(nm, show(a)) for nm, a in flags])
+            rec.need(all(v is not None and a[0] == 'const' and v[0] == 0 for v, (nm, a) in zip(vals, flags)), 'finder-entry-flags', g, gb,
+                     'the finder\'s top-level scan is started with %s: with the emit flag set, "key not found" returns the raw text of '
+                     'stray top-level values instead of nothing' % [(nm, show(a)) for nm, a in flags])
+    rec.need(n >= 1, 'finder-entry', 'bcodec::deep_finder', None, 'no top-level call of the raw scanner found')
